@@ -469,9 +469,14 @@ impl MainState {
 // main process to handle commands from client.
 async fn user_state_process(main_state: Arc<MainState>, stream: DualTcpStream, addr: SocketAddr) {
     let line_stream = Framed::new(stream, IRCLinesCodec::new_with_max_length(2000));
+    #[cfg(simple_irc_server_verif)]
+    let mut verif_accepted = false;
     if let Some(mut conn_state) = main_state.register_conn_state(addr.ip(), line_stream) {
         #[cfg(simple_irc_server_verif)]
-        verif::opened(&mut conn_state, &addr);
+        {
+            verif_accepted = true;
+            verif::opened(&mut conn_state, &addr);
+        }
         #[cfg(feature = "dns_lookup")]
         if main_state.config.dns_lookup {
             conn_state.run_dns_lookup();
@@ -495,7 +500,7 @@ async fn user_state_process(main_state: Arc<MainState>, stream: DualTcpStream, a
         verif::ended(&mut conn_state);
     }
     #[cfg(simple_irc_server_verif)]
-    verif::task_done(&addr);
+    verif::task_done(&addr, verif_accepted);
 }
 
 #[cfg(feature = "tls_rustls")]
